@@ -452,6 +452,29 @@ def check(run):
     for n in (range(2, 13) if run.quick else range(2, 33)):
         for rep in range(1 if run.quick else 3):
             config_space_case(run, ps, rng, n, [1.0, 250.0][n % 2], [1, 16, 3][n % 3], int(rng.integers(1, 7)), [(), (0, 2), (0, 2, 4)][n % 3])
+    # consecutive requests on one mesh size and box whose edge arrays have equal lengths and equal end points but other interior
+    # edges (each is compared with the enumeration, so anything remembered from the previous request shows)
+    for n in (6, 9, 12):
+        L = 100.0
+        kf = 2 * np.pi / L
+        for j, inner in enumerate(([0.9, 1.7, 2.6], [1.3, 1.45, 2.95], [0.6, 2.2, 2.4])):
+            kedges = np.array([0.35] + inner + [3.35]) * kf
+            muedges = [np.linspace(0, 1, 5), np.array([0.0, 0.1, 0.35, 0.8, 1.0]), np.array([0.0, 0.45, 0.5, 0.55, 1.0])][j]
+            w = rng.permutation(n * n * (n // 2 + 1)).reshape(n, n, n // 2 + 1).astype(np.float64) + 1.0
+            desc = dict(kernel='bin_kmu', n=n, L=L, request_in_sequence=j, kedges_over_kf=(kedges / kf).tolist(), muedges=muedges.tolist())
+            run.ev()
+            run.progress(desc)
+            with warnings.catch_warnings():
+                warnings.simplefilter('ignore')
+                wc, cnt, wcp, cntp, wck = ps.bin_kmu(n, L, kedges, muedges, w, poles=np.array([0, 2], dtype=np.int64), dtype=np.float64, nthread=[4, 1, 16][j])
+            ref = reference(n, L, kedges, muedges, w, 'kmu', (0, 2))
+            run.nt(('sequence', n, j))
+            if compare_counts(run, cnt, ref, desc, 'kmu-binning-depends-on-earlier-request'):
+                break
+            clean = ref['maxextra'] == 0
+            if not (np.isclose(wck * cnt, ref['sumk'], rtol=1e-10, atol=1e-9) | ~clean).all():
+                run.violation('kmu-binning-depends-on-earlier-request', dict(problem='k_avg', **desc))
+                break
     accumulator_race_monitor(run, ps, rng)
     for n, nthread in ([(260, 1), (260, 16)] if run.quick else [(260, 1), (260, 16), (300, 3), (400, 1), (400, 2)]):
         big_bin_case(run, ps, n, nthread)
